@@ -298,6 +298,48 @@ def run_witnesses(prop, cr, findings):
     return lines, viols, info
 
 
+def load_corpus(prop):
+    """Regression corpus: minimised cases kept from earlier detections (corpus/<prop>/*.json).  They are
+    ordinary workloads -- on a tree where the property holds every one of them passes -- replayed before
+    the seeded search so that a bug of a class seen before is reported independently of seed luck."""
+    d = os.path.join(VERIF, "corpus", prop)
+    out = []
+    if os.path.isdir(d):
+        for n in sorted(os.listdir(d)):
+            if n.endswith(".json"):
+                try:
+                    with open(os.path.join(d, n)) as f:
+                        c = json.load(f)
+                    out.append((n, c))
+                except Exception:  # noqa
+                    pass
+    return out
+
+
+def run_corpus(prop, machine, cr, findings):
+    """Returns (number of cases run, violations [(name, backend, case, violation)])."""
+    viols = []
+    n = 0
+    for name, case in load_corpus(prop):
+        m = case.get("machine", machine)
+        backends = [case["backend"]] if case.get("backend") in ("c", "py") else ["c", "py"]
+        if m == "c19":
+            backends = ["c"]
+        for be in backends:
+            try:
+                res = cr.run(m, be, case, env=case.get("env") or None)
+            except pool.HarnessError:
+                continue
+            n += 1
+            for v in case_violations(res):
+                if v.get("kind") == "died":
+                    continue
+                if not known.match(prop, v, findings):
+                    viols.append((name, be, case, v))
+                    break
+    return n, viols
+
+
 def write_evidence(prop, data):
     os.makedirs(os.path.join(OUT, "evidence"), exist_ok=True)
     path = os.path.join(OUT, "evidence", prop + ".json")
